@@ -49,7 +49,7 @@ def dispatch_to_compute(op: Operation, ctx: AccContext):
             # Dont dispatch to compute if the kernel is provided by a StreamerExtension
             if any(
                 [
-                    not ext.supported_kernel.is_same_kernel(kernel_op)
+                    ext.supported_kernel.is_same_kernel(kernel_op)
                     for ext in XDMA_EXT_SET
                     if ext.supported_kernel is not None
                 ]
